@@ -455,7 +455,7 @@ pub struct Minimised {
 }
 
 /// Shrink a failing choice list while the same clause keeps failing.
-pub fn minimise(prop: &Property, sc: &Scenario, choices: Vec<u64>, clause: &str) -> Minimised {
+pub fn minimise(prop: &Property, sc: &Scenario, choices: Vec<u64>, clause: &str, events_of_original: u64) -> Minimised {
     let execs_c = std::cell::Cell::new(0u64);
     let try_list = |list: &[u64]| -> Option<(Vec<u64>, Violation)> {
         execs_c.set(execs_c.get() + 1);
@@ -485,7 +485,9 @@ pub fn minimise(prop: &Property, sc: &Scenario, choices: Vec<u64>, clause: &str)
             }
         }
     };
-    const MAX_EXECS: u64 = 5000;
+    // deterministic work bound: about 1.5e9 simulated I/O events in total, 200..=5000 re-executions
+    #[allow(non_snake_case)]
+    let MAX_EXECS: u64 = (1_500_000_000 / events_of_original.max(1)).clamp(200, 5000);
     let simpler = |a: &[u64], b: &[u64]| -> bool {
         // strictly simpler: shorter, or same length and lexicographically smaller sum-wise
         if a.len() != b.len() {
@@ -566,12 +568,45 @@ pub fn minimise(prop: &Property, sc: &Scenario, choices: Vec<u64>, clause: &str)
         if budget_hit {
             break;
         }
+        // pass 2b: shorten a counted list — lower the count at i by one and delete one of the
+        // choices it governs (string lengths, column counts: "n, then n elements")
+        let mut i = 0;
+        while i < best.len() {
+            let cur = best[i];
+            if cur > 0 {
+                let c = cur as usize;
+                for j in [i + c, i + c + 1, i + 1, i + 2] {
+                    if j <= i || j >= best.len() {
+                        continue;
+                    }
+                    let mut cand = best.clone();
+                    cand[i] = cur - 1;
+                    cand.remove(j);
+                    if let Some((l, v)) = try_list(&cand) {
+                        if simpler(&l, &best) {
+                            best = l;
+                            viol = v;
+                            improved = true;
+                            break;
+                        }
+                    }
+                }
+                if execs_c.get() >= MAX_EXECS {
+                    budget_hit = true;
+                    break;
+                }
+            }
+            i += 1;
+        }
+        if budget_hit {
+            break;
+        }
         // pass 3: lower single values
         let mut i = 0;
         while i < best.len() {
             let cur = best[i];
             if cur > 0 {
-                for cand_v in [cur / 2, cur - 1] {
+                for cand_v in [0, cur / 2, cur - 1] {
                     if cand_v >= cur || i >= best.len() {
                         continue;
                     }
